@@ -140,9 +140,12 @@ fn obs_json(o: &BlockObs) -> J {
 fn eval_block(prop: &str, jw: &mut JitWorld, ctx: &mut Ctx, code: &[u8], at: u16, name: &str, kind: &str, vecs: &[Cpu], est_len: usize) {
   jw.unplant_all();
   jw.plant_bytes(at, code);
-  for c0 in vecs.iter() {
+  for (vi, c0) in vecs.iter().enumerate() {
     let mut c = *c0;
     c.pc = at;
+    // every other register vector enters the block the way the block after an interrupt
+    // dispatch is entered: with five machine cycles already in the cycle register
+    jw.entry_cycles = if vi % 2 == 1 { 5 } else { 0 };
     let oi = jw.run_interp_block(&c);
     jw.restore(&oi);
     let t0 = jw.total_translations;
@@ -160,13 +163,14 @@ fn eval_block(prop: &str, jw: &mut JitWorld, ctx: &mut Ctx, code: &[u8], at: u16
       let key = if is_cycles { format!("C02 {}={} jit={} interp={}", kind, name, oj.cycles, oi.cycles) } else { format!("C01 {}={} field={}", kind, name, f) };
       ctx.violation(&key, || {
         J::obj()
-          .set("case", J::obj().set("block_bytes", J::s(hex(&code[..code.len().min(64)]))).set("block_len", J::u(code.len() as u64)).set("at", J::s(format!("{:04X}", at))).set("regs", J::s(format!("{:?}", c))))
+          .set("case", J::obj().set("block_bytes", J::s(hex(&code[..code.len().min(64)]))).set("block_len", J::u(code.len() as u64)).set("at", J::s(format!("{:04X}", at))).set("regs", J::s(format!("{:?}", c))).set("cycles_on_entry", J::u(if vi % 2 == 1 { 5 } else { 0 })))
           .set("interpreter", obs_json(&oi))
           .set("translated", obs_json(&oj))
           .set("differing_fields", J::Arr(d.iter().map(|x| J::s(*x)).collect()))
       });
     }
   }
+  jw.entry_cycles = 0;
 }
 
 pub fn run(prop: &'static str, tier: &str) -> i32 {
@@ -348,14 +352,14 @@ pub fn run(prop: &'static str, tier: &str) -> i32 {
   // low byte) are the only thing one guest instruction's template leaves behind for the next.
   // Each encoding is therefore also run behind k NOPs for every k that moves the running
   // cycle count through a full period of both, from both entry values of the cycle register
-  // (0, and 5 after an interrupt dispatch — modelled by 5 extra NOPs).
+  // (0, and 5 after an interrupt dispatch: eval_block enters every other vector with 5).
   {
     let ks: Vec<usize> = if thorough { (1..=37).collect() } else { vec![10, 15, 16, 31] };
     let mut singles: Vec<Vec<u8>> = non_term.clone();
     singles.extend(term.iter().cloned());
     let ns = singles.len() as u64;
     let total = ns * ks.len() as u64;
-    let vecp = vectors(if thorough { 4 } else { 2 });
+    let vecp = vectors(if thorough { 8 } else { 4 });
     let opts = PoolOpts { chunk: 64, bitmap_bits: 1 << 16, samples_per_child: 1, workers: crate::util::pool::default_workers().min(8), ..PoolOpts::default() };
     let r = run_pool(
       total,
@@ -509,8 +513,9 @@ pub fn worker(prop: &'static str, args: &[String]) -> i32 {
       // the key names the block and the pointer region, not the host pattern
       jw.unplant_all();
       jw.plant_bytes(0x0150, blk);
-      for c0 in vecs.iter() {
+      for (vi, c0) in vecs.iter().enumerate() {
         let c = *c0;
+        jw.entry_cycles = if vi % 2 == 1 { 5 } else { 0 };
         let oi = jw.run_interp_block(&c);
         jw.restore(&oi);
         let t0 = jw.total_translations;
@@ -551,20 +556,7 @@ pub fn worker(prop: &'static str, args: &[String]) -> i32 {
     },
   );
   let _ = std::fs::remove_file(&image);
-  let viol = J::Arr(r.violations.iter().map(|v| J::obj().set("key", J::s(v.key.as_str())).set("count", J::u(v.count)).set("detail", v.detail.clone())).collect());
-  let meta = J::obj()
-    .set("cases_done", J::u(r.cases_done))
-    .set("cases_total", J::u(r.cases_total))
-    .set("distinct", J::u(r.distinct))
-    .set("evals", J::u(r.counters[0]))
-    .set("translations", J::u(r.counters[1]))
-    .set("injected_calls", J::u(r.counters[2]))
-    .set("crashes", J::u(r.crashes))
-    .set("capped", J::Bool(r.capped))
-    .set("wall_ms", J::u(r.wall.as_millis() as u64))
-    .set("samples", J::Arr(r.samples.clone()))
-    .set("violations", viol)
-    .set("machinery", J::Arr(r.machinery_errors.iter().map(|m| J::s(m.as_str())).collect()));
+  let meta = r.to_json();
   if std::fs::write(&args[2], meta.to_string()).is_err() {
     return 2;
   }
@@ -601,32 +593,9 @@ fn shipping_stage(prop: &str, tier: &str, rep: &mut Report) -> Option<crate::uti
     },
   };
   let _ = std::fs::remove_file(&out);
-  let mut r = crate::util::pool::PoolResult::empty();
-  let num = |k: &str| m.int_of(k).max(0) as u64;
-  r.cases_done = num("cases_done");
-  r.cases_total = num("cases_total");
-  r.distinct = num("distinct");
-  r.counters[0] = num("evals");
-  r.counters[1] = num("translations");
-  r.counters[2] = num("injected_calls");
+  let r = crate::util::pool::PoolResult::from_json(&m, "shipping-build worker");
   if r.counters[2] * 4 != r.counters[0] * 3 {
     rep.machinery_error(format!("shipping-build worker: {} of {} block runs entered with injected host registers, expected 3 in 4 (prologue not located?)", r.counters[2], r.counters[0]));
-  }
-  r.crashes = num("crashes");
-  r.capped = matches!(m.get("capped"), Some(J::Bool(true)));
-  r.wall = std::time::Duration::from_millis(num("wall_ms"));
-  if let Some(ss) = m.get("samples").and_then(|v| v.as_arr()) {
-    r.samples = ss.iter().cloned().collect();
-  }
-  if let Some(vs) = m.get("violations").and_then(|v| v.as_arr()) {
-    for v in vs {
-      r.violations.push(crate::util::pool::Violation { key: v.str_of("key"), count: v.int_of("count").max(1) as u64, detail: v.get("detail").cloned().unwrap_or(J::Null) });
-    }
-  }
-  if let Some(ms) = m.get("machinery").and_then(|v| v.as_arr()) {
-    for x in ms {
-      r.machinery_errors.push(format!("shipping-build worker: {}", x.as_str().unwrap_or("")));
-    }
   }
   if r.cases_total == 0 {
     rep.machinery_error("shipping-build worker reported no cases".to_string());
